@@ -217,7 +217,7 @@ fn run_all(ctx: &Ctx, mode: Mode, bytes: &[u8], what: String, n_opts: usize) {
         if let Some(Some(mut it)) = it {
             // the lower bound of size_hint is a promise: `collect()` allocates that many items up
             // front. More points than the file has bits cannot be promised (unless a point has no bits).
-            let (hint_lo, _) = it.size_hint();
+            let Some((hint_lo, _)) = j.call("raw size_hint()", &dev, 4, || it.size_hint()) else { return };
             let point_bits: u64 = pc.prototype.iter().map(|r| crate::conv::ty_from_e57(&r.data_type).bits() as u64).sum();
             if mode == Mode::NoPanic && point_bits > 0 && hint_lo as u64 > 8 * l + 1024 {
                 ctx.violation(
@@ -263,6 +263,14 @@ fn run_all(ctx: &Ctx, mode: Mode, bytes: &[u8], what: String, n_opts: usize) {
                 })
             });
             if let Some(Some(mut it)) = it {
+                let Some((hint_lo, _)) = j.call("simple size_hint()", &dev, 4, || it.size_hint()) else { return };
+                let point_bits: u64 = pc.prototype.iter().map(|r| crate::conv::ty_from_e57(&r.data_type).bits() as u64).sum();
+                if mode == Mode::NoPanic && point_bits > 0 && hint_lo as u64 > 8 * l + 1024 {
+                    ctx.violation(
+                        "C08/size-hint/untrusted-lower-bound".to_string(),
+                        format!("pointcloud_simple(cloud {ci}).size_hint() promises at least {hint_lo} items for a file of {l} bytes; input: {}", j.what),
+                    );
+                }
                 let mut n = 0u64;
                 loop {
                     let item = j.call("simple next()", &dev, 4, || it.next().map(|x| x.is_ok()));
